@@ -59,7 +59,7 @@ mut("cancel-wait-skipped", "C10", "server.go", "\terr := h.serve(ctx)\n\th.cance
 # ---- data races (C15) ----
 mut("race-id-counter", "C15", "internal/client/multiplexer.go", "\tstreamId := atomic.AddUint64(&rm.streamCounter, 1)\n\n\trespChan := make(chan *goatorepo.Rpc, 1)\n\n\tgone, err := rm.registerHandler(streamId, respChan)\n\tif err != nil {\n\t\treturn nil, err\n\t}", "\trm.streamCounter++\n\tstreamId := rm.streamCounter + atomic.AddUint64(new(uint64), 0)\n\n\trespChan := make(chan *goatorepo.Rpc, 1)\n\n\tgone, err := rm.registerHandler(streamId, respChan)\n\tif err != nil {\n\t\treturn nil, err\n\t}", "unary id counter incremented without atomics", suite=False)
 mut("race-stream-done-unlocked", "C15", "internal/client/stream.go", "func (cs *clientStream) readErrorIfDone() (bool, error) {\n\tcs.protected.Lock()\n\tdefer cs.protected.Unlock()\n", "func (cs *clientStream) readErrorIfDone() (bool, error) {\n", "stream terminal state read without the lock")
-mut("race-server-headers-unlocked", "C15", "internal/server/stream.go", "func (ss *serverStream) SetTrailer(md metadata.MD) {\n\tss.protected.Lock()\n\tdefer ss.protected.Unlock()\n", "func (ss *serverStream) SetTrailer(md metadata.MD) {\n", "SetTrailer without the lock", suite=True)
+mut("race-server-headers-unlocked", "C15", "internal/server/stream.go", "func (ss *serverStream) setHeader(md metadata.MD, send bool) error {\n\tss.protected.Lock()\n\tdefer ss.protected.Unlock()\n", "func (ss *serverStream) setHeader(md metadata.MD, send bool) error {\n", "SetHeader/SendHeader without the lock (concurrent with SendMsg)", suite=True)
 mut("race-proxy-clients-unlocked", "C15", "proxy.go", "\tp.mutex.Lock()\n\tp.clients[id] = client\n\tp.mutex.Unlock()\n", "\tp.clients[id] = client\n", "AddClient writes the table without the lock")
 
 
